@@ -1,7 +1,7 @@
 #!/bin/bash
 # usage: dev/try_seed.sh <Cxx> <m1|m2> [extra check ids...]   -- verifies a seeded change and runs the check(s) against it
 P=$1; M=$2; shift 2; CHECKS="$P $*"
-case $M in e*) SRC=/tmp/seeds8/$P/$M;; f*) SRC=/tmp/seeds7/$P/$M;; g*) SRC=/tmp/seeds6/$P/$M;; h*) SRC=/tmp/seeds5/$P/$M;; j*) SRC=/tmp/seeds4/$P/$M;; n*) SRC=/tmp/seeds2/$P/$M;; k*) SRC=/tmp/seeds3/$P/$M;; *) SRC=/tmp/seeds/$P/$M;; esac
+case $M in b*) SRC=/tmp/seeds11/$P/$M;; e*) SRC=/tmp/seeds8/$P/$M;; f*) SRC=/tmp/seeds7/$P/$M;; g*) SRC=/tmp/seeds6/$P/$M;; h*) SRC=/tmp/seeds5/$P/$M;; j*) SRC=/tmp/seeds4/$P/$M;; n*) SRC=/tmp/seeds2/$P/$M;; k*) SRC=/tmp/seeds3/$P/$M;; *) SRC=/tmp/seeds/$P/$M;; esac
 WT=/tmp/wt-try-$P-$M
 OUT=/verif/seeded/$P-$M
 git -C /repo worktree remove --force $WT 2>/dev/null
